@@ -102,7 +102,7 @@ prop("C10",
           "the end of every script; non-trivial = a Close or DeletePeer returned in the trace")
 
 prop("C12",
-     scripts=lambda tier, rnd: S.damping() + S.damping_exact() + S.collision_racy(rnd, 40 if tier == "thorough" else 12) +
+     scripts=lambda tier, rnd: S.damping() + S.damping_exact() + (S.damping_matrix() if tier == "thorough" else sample(S.damping_matrix(), rnd, 60)) + S.collision_racy(rnd, 40 if tier == "thorough" else 12) +
      (S.damping_random(rnd, 150) if tier == "thorough" else S.damping_random(rnd, 15)),
      mc=lambda tier: [mc_pair(["openLo", "ka", "notif"])] if tier == "quick" else
      [mc_pair(["openLo", "ka", "notif", "cease"], dials=2), mc_pair(["openLo", "ka", "fault", "openBad"], dials=2)],
@@ -111,7 +111,7 @@ prop("C12",
           "threshold (60 s, doubling, 300 s cap, 300 s amnesia), and non-damping faults; exact virtual time")
 
 prop("C11",
-     scripts=lambda tier, rnd: S.pacing() if tier == "thorough" else sample(S.pacing(), rnd, 70),
+     scripts=lambda tier, rnd: S.inbound_drop() + (S.pacing() if tier == "thorough" else sample(S.pacing(), rnd, 70)),
      mc=lambda tier: [mc_pair(["openLo", "ka", "cease"], conns=1, msgs=3, dials=3)] if tier == "quick" else
      [mc_pair(["openLo", "ka", "cease"], conns=2, msgs=2, dials=3)],
      nontrivial=lambda s, r: sum(1 for e in syscheck.events_of(r) if e["e"] == "dial") >= 2 or "passive" in s.get("tags", ()),
@@ -170,7 +170,7 @@ prop("C14",
           "the OPEN on the wire must equal Open!OpenMsg byte for byte, or no OPEN at all when unrepresentable")
 
 prop("C13",
-     scripts=lambda tier, rnd: S.admission(),
+     scripts=lambda tier, rnd: S.admission() + S.multi_listener() + sample(S.inbound_drop(), rnd, 22 if tier == "thorough" else 8),
      mc=lambda tier: [mc_pair(["openLo", "ka", "notif"], conns=3 if tier == "thorough" else 2, msgs=2)],
      nontrivial=lambda s, r: any(e["e"] == "acc" for e in syscheck.events_of(r)),
      rule="peer sets x (source, destination) pairs incl. IPv6 and IPv4-mapped x peer state at arrival; a refused connection "
